@@ -58,6 +58,7 @@ func (c *CPRNG) Read(buf []byte) (n int, err error) {
 	// Atomically increment counter by the number of blocks and set iv to
 	// the first available block.
 	iv := atomic.AddUint64(&c.counter, nBlocks) - nBlocks
+	verifHook("cprng.reserve", c, iv, nBlocks, n)
 	for {
 		binary.LittleEndian.PutUint64(pt[:], iv)
 		iv++
